@@ -503,8 +503,12 @@ def r16_3(chk, sdf, mol):
     def val2(name):
         return [e.value.subs({lines2: LN}).subs({counts_v[0].as_atom(): COUNTS}) for e in rev.events
                 if e.kind == "assign" and e.name == name]
-    al = [slice_of(v) for v in val2("atom_lines")]
-    bl = [slice_of(v) for v in val2("bond_lines")]
+    # the blocks are what the block parsers are handed (whatever the slices are called on the way)
+    def handed(parser):
+        return [e.extra["args"][0].subs({lines2: LN}).subs({counts_v[0].as_atom(): COUNTS}) for e in rev.events
+                if e.kind == "call" and call_name(e.value.as_atom() or ()) == parser and e.extra.get("args")]
+    al = [slice_of(v) for v in handed("parse_atom_lines")]
+    bl = [slice_of(v) for v in handed("parse_bond_lines")]
     first = P.const(cidx + 1)
     chk.ob("R16.3", SDF, rq, "atom block = lines[k+1 : k+1+atoms]",
            bool(al) and al[0] is not None and al[0][0] == first and al[0][1] == first + A,
@@ -617,8 +621,8 @@ def r16_4(chk, mol, xyz):
     # header: two lines when header is on
     init = None
     for e in ev.events:
-        if e.kind == "assign" and e.name == "lines" and e.guards and e.guards[-1][1]:
-            init = obj_init(e.value)
+        if e.kind == "assign" and e.guards and e.guards[-1][1] and seq_items(obj_init(e.value)) and "len(self)" in seq_items(obj_init(e.value))[0].key():
+            init = obj_init(e.value)             # the header lines, under whatever name they are collected
         elif e.kind == "assign" and e.name == "lines" and not e.guards:
             # lines = [count, comment] if header else []
             ia = obj_init(e.value).as_atom()
